@@ -16,8 +16,10 @@ from concurrent.futures import ThreadPoolExecutor
 VERIF = os.path.dirname(os.path.dirname(os.path.abspath(__file__)))
 REPO = os.path.abspath(os.environ.get("VERIF_REPO", "/repo"))
 CACHE = os.environ.get("VERIF_CACHE", os.path.join(VERIF, ".cache"))
-EVIDENCE_DIR = os.path.join(VERIF, "evidence")
-REPLAYS = os.path.join(VERIF, "replays")
+# runs against another tree (VERIF_REPO: seeded defects, pre-fix worktrees) keep their evidence and replays out of the committed ones
+_ALT = None if REPO == "/repo" else os.path.join(CACHE, "alt-" + hashlib.sha1(REPO.encode()).hexdigest()[:8])
+EVIDENCE_DIR = os.environ.get("VERIF_EVIDENCE") or (os.path.join(_ALT, "evidence") if _ALT else os.path.join(VERIF, "evidence"))
+REPLAYS = os.environ.get("VERIF_REPLAYS") or (os.path.join(_ALT, "replays") if _ALT else os.path.join(VERIF, "replays"))
 NCPU = min(16, os.cpu_count() or 4)
 NIGHTLY = "nightly"
 
